@@ -32,19 +32,33 @@ type ExifCase struct {
 	Dirs    map[string][]AEntry `json:"dirs"`
 	Lay     []ABlock            `json:"lay"`
 	Offs    []int               `json:"offs"`
+	BulkAt  int                 `json:"bulkAt"`
 	Len     int                 `json:"len"`
 	Out     []int               `json:"out"`
 	Dropped [][]interface{}     `json:"dropped"`
 	Reads   int                 `json:"reads"`
 }
 
+// ExpandBulk re-creates the bulk filler the specification emits in compact form: entries
+// 1001..1000+bulk at the end of IFD0 and a contiguous run of 8-byte value blocks from BulkAt.
+func (c *ExifCase) ExpandBulk() {
+	if c.Bulk == 0 || (len(c.Dirs["IFD0"]) > 0 && c.Dirs["IFD0"][len(c.Dirs["IFD0"])-1].Key > 1000) {
+		return
+	}
+	for i := 1; i <= c.Bulk; i++ {
+		c.Dirs["IFD0"] = append(c.Dirs["IFD0"], AEntry{Key: 1000 + i, Ifd: "IFD0", Cls: "fOol"})
+		c.Lay = append(c.Lay, ABlock{T: "val", Key: 1000 + i, Ifd: "IFD0", Size: 8})
+		c.Offs = append(c.Offs, c.BulkAt+(i-1)*(c.Pad+8))
+	}
+}
+
 // TIFF field types
 const (
-	tByte = 1
-	tASCII = 2
-	tShort = 3
-	tLong = 4
-	tRational = 5
+	tByte      = 1
+	tASCII     = 2
+	tShort     = 3
+	tLong      = 4
+	tRational  = 5
 	tSRational = 10
 )
 
@@ -241,10 +255,11 @@ var catalog = map[string]map[string][]tagSpec{
 		"embShort": {shortTag(0x0112, "Orientation", "Orientation", oneOf(1, 2, 3, 4, 5, 6, 7, 8)), shortTag(0x0100, "ImageWidth", "ImageWidth", any16), shortTag(0x0101, "ImageLength", "ImageHeight", any16)},
 		"embLong":  {longTag(0x0100, "ImageWidth", "ImageWidth", 65535), longTag(0x0101, "ImageLength", "ImageHeight", 65535), longTag(0x0111, "StripOffsets", "StripOffsets", 1<<31), longTag(0x0117, "StripByteCounts", "StripByteCounts", 1<<31)},
 		"embAscii": {strTag(0x0131, "Software", "Software"), strTag(0x013b, "Artist", "Artist"), strTag(0x8298, "Copyright", "Copyright"), strTag(0x010e, "ImageDescription", "ImageDescription")},
-		"ascii":    {strTag(0x010f, "Make", "Make"), strTag(0x0110, "Model", "Model"), strTag(0x0131, "Software", "Software"), strTag(0x013b, "Artist", "Artist"), strTag(0x8298, "Copyright", "Copyright"), strTag(0x010e, "ImageDescription", "ImageDescription")},
+		"ascii":    {strTag(0x010f, "Make", "Make"), strTag(0x0110, "Model", "Model"), strTag(0x0131, "Software", "Software"), strTag(0x013b, "Artist", "Artist"), strTag(0x8298, "Copyright", "Copyright"), strTag(0x010e, "ImageDescription", "ImageDescription"), strTag(0xc62f, "CameraSerialNumber", "CameraSerial")},
 		"date":     {dateTag(0x0132, "DateTime", "ModifyDate")},
 	},
 	"Exif": {
+		"embLong":  {longTag(0xa002, "PixelXDimension", "ImageWidth", 65535), longTag(0xa003, "PixelYDimension", "ImageHeight", 65535)},
 		"embShort": {shortTag(0x8822, "ExposureProgram", "ExposureProgram", oneOf(0, 1, 2, 3, 4, 5, 6, 7, 8, 9)), shortTag(0x8827, "ISOSpeedRatings", "ISOSpeed", any16),
 			shortTag(0x9207, "MeteringMode", "MeteringMode", oneOf(0, 1, 2, 3, 4, 5, 6, 255)), shortTag(0x9209, "Flash", "Flash", oneOf(0, 1, 5, 7, 8, 9, 13, 15, 16, 24, 25, 29, 31, 32, 65, 69, 71, 73, 77, 79, 89, 93, 95)),
 			shortTag(0xa402, "ExposureMode", "ExposureMode", oneOf(0, 1, 2)), shortTag(0xa405, "FocalLengthIn35mmFilm", "FocalLengthIn35mmFormat", any16)},
@@ -306,8 +321,12 @@ func coord(rng *rand.Rand, maxDeg int, field string) (LVal, map[string]interface
 	return LVal{Typ: tRational, Rats: [][2]uint32{{d, 1}, {m, 1}, {sn, sd}}}, map[string]interface{}{field: v}
 }
 
-var foreign = map[string][]uint16{"IFD0": {0x011a, 0x011b, 0x013e, 0x013f, 0x0211}, "Exif": {0xa20e, 0xa20f, 0x9202, 0x9203}, "GPS": {0x0b, 0x0d, 0x0f, 0x11}}
+var foreign = map[string][]uint16{"IFD0": {0x011a, 0x011b, 0x013e, 0x013f, 0x0211}, "Exif": {0xa20e, 0xa20f, 0x9205, 0x9206}, "GPS": {0x0b, 0x0d, 0x0f, 0x11}}
 var foreignEmb = map[string][]uint16{"IFD0": {0x0128, 0x0103, 0x0106}, "Exif": {0xa001, 0xa403, 0xa406}, "GPS": {0x12, 0x1e}}
+
+// tsOf maps the zone / sub-second tags to the timestamp they qualify.
+var tsOf = map[uint16]string{0x9010: "ModifyDate", 0x9011: "DateTimeOriginal", 0x9012: "CreateDate",
+	0x9290: "ModifyDate", 0x9291: "DateTimeOriginal", 0x9292: "CreateDate"}
 
 func classKey(cls string) (string, int) {
 	switch cls {
@@ -333,6 +352,8 @@ func classKey(cls string) (string, int) {
 		return "zone", 7
 	case "subsec":
 		return "subsec", 7
+	case "subsec5":
+		return "subsec", 5
 	}
 	return cls, 4
 }
@@ -377,6 +398,18 @@ func BindCase(c *ExifCase, rng *rand.Rand) (map[int]*Bound, error) {
 				return nil, fmt.Errorf("no catalog entry for %s/%s", dir, e.Cls)
 			}
 			var pick *tagSpec
+			// parts of a composite timestamp (zone, sub-seconds) prefer the timestamp whose date is already bound
+			if ck == "zone" || ck == "subsec" || (dir == "Exif" && ck == "embAscii") {
+				for si := range specs {
+					s := &specs[si]
+					k := fmt.Sprintf("%s/%04x", dir, s.id)
+					if !used[k] && usedField[tsOf[s.id]+".date"] && rng.Intn(4) != 0 {
+						pick = s
+						used[k] = true
+						break
+					}
+				}
+			}
 			for try := 0; try < 50 && pick == nil; try++ {
 				s := &specs[rng.Intn(len(specs))]
 				k := fmt.Sprintf("%s/%04x", dir, s.id)
@@ -411,7 +444,11 @@ func BuildTIFF(c *ExifCase, bind map[int]*Bound, order string) []byte {
 	if order == "BE" {
 		bo = binary.BigEndian
 	}
-	buf := make([]byte, c.Len)
+	n := c.Len
+	if c.Variant == "tiff" && n < c.Ifd0At+32 {
+		n = c.Ifd0At + 32 // a TIFF *file* is never this small: the header search needs 32 bytes (C12's own domain)
+	}
+	buf := make([]byte, n)
 	for i := range buf {
 		buf[i] = 0xEE // padding is visibly not zero
 	}
